@@ -5,12 +5,12 @@ From Cinco Require Import Base Config ConfigLemmas.
 Import ListNotations.
 
 Theorem C12_fresh_all_default :
-  forall (F : Type) (ldefault : F -> N -> pyval) (lcallable : F -> bool) (w : world) (fs : list (str * node F)) (w' : world) (c : cfg) (k : str), build_cfg F ldefault lcallable w fs = (w', c) -> In k (map fst fs) -> defined c k = false.
+  forall (F : Type) (lvalidate lto_python : F -> pyval -> res pyval) (ldefault : F -> N -> pyval) (lcallable lflag : F -> bool) (vrun : N -> list (str * pyval) -> bool) (w : world) (fs : list (str * node F)) (w' : world) (c : cfg) (k : str), build_cfg F lvalidate lto_python ldefault lcallable lflag vrun w fs = (w', c) -> In k (map fst fs) -> defined c k = false.
 Proof. exact fresh_all_default. Qed.
 Print Assumptions C12_fresh_all_default.
 
 Theorem C12_fresh_exposes_defaults :
-  forall (F : Type) (ldefault : F -> N -> pyval) (lcallable : F -> bool) (w : world) (fs : list (str * node F)) (w' : world) (c : cfg) (k : str) (f : F), build_cfg F ldefault lcallable w fs = (w', c) -> fget F k fs = Some (NLeaf f) -> exists n : N, dget k (c_data c) = Some (VLeaf (ldefault f n)).
+  forall (F : Type) (lvalidate lto_python : F -> pyval -> res pyval) (ldefault : F -> N -> pyval) (lcallable lflag : F -> bool) (vrun : N -> list (str * pyval) -> bool) (w : world) (fs : list (str * node F)) (w' : world) (c : cfg) (k : str) (f : F), build_cfg F lvalidate lto_python ldefault lcallable lflag vrun w fs = (w', c) -> fget F k fs = Some (NLeaf f) -> exists n : N, dget k (c_data c) = Some (VLeaf (ldefault f n)).
 Proof. exact fresh_exposes_defaults. Qed.
 Print Assumptions C12_fresh_exposes_defaults.
 
@@ -30,7 +30,7 @@ Proof. exact set_value_err. Qed.
 Print Assumptions C12_set_value_err.
 
 Theorem C12_reset_spec :
-  forall (F : Type) (ldefault : F -> N -> pyval) (lcallable : F -> bool) (w : world) (c : cfg) (fs : list (str * node F)) (k : str) (w' : world) (c' : cfg) (nd : node F), fget F k fs = Some nd -> reset_key F ldefault lcallable w c fs k = (w', c', OOk) -> defined c' k = false /\ dget k (c_data c') = Some (snd (build_val F ldefault lcallable w nd)) /\ (forall k' : str, str_eqb k' k = false -> defined c' k' = defined c k' /\ dget k' (c_data c') = dget k' (c_data c)) /\ c_id c' = c_id c.
+  forall (F : Type) (lvalidate lto_python : F -> pyval -> res pyval) (ldefault : F -> N -> pyval) (lcallable lflag : F -> bool) (vrun : N -> list (str * pyval) -> bool) (w : world) (c : cfg) (fs : list (str * node F)) (k : str) (w' : world) (c' : cfg) (nd : node F), fget F k fs = Some nd -> reset_key F lvalidate lto_python ldefault lcallable lflag vrun w c fs k = (w', c', OOk) -> defined c' k = false /\ dget k (c_data c') = Some (snd (build_val F lvalidate lto_python ldefault lcallable lflag vrun w nd)) /\ (forall k' : str, str_eqb k' k = false -> defined c' k' = defined c k' /\ dget k' (c_data c') = dget k' (c_data c)) /\ c_id c' = c_id c.
 Proof. exact reset_spec. Qed.
 Print Assumptions C12_reset_spec.
 
@@ -44,3 +44,36 @@ Theorem C12_defined_history :
 Proof. exact defined_history. Qed.
 Print Assumptions C12_defined_history.
 
+(* configuration objects: an accepted object assignment stores that very object and makes exactly its key user-defined; the list routes and every refusal change no mark (mark_effect / declared_target above include CSetObj) *)
+
+Theorem C12_set_obj_ok :
+  forall (F : Type) (lvalidate lto_python : F -> pyval -> res pyval) (ldefault : F -> N -> pyval) (lcallable lflag : F -> bool) (vrun : N -> list (str * pyval) -> bool) (k : str) (src : cfg) (w : world) (pre : str) (c : cfg) (dyn : bool) (vs : list N) (fs : list (str * node F)) (w' : world) (c' : cfg), apply_cop F lvalidate lto_python ldefault lcallable lflag vrun w pre c dyn vs fs (CSetObj k src) = (w', c', OOk) -> c' = store c k (VCfg src) /\ w' = w /\ (exists (d' : bool) (vs' : list N) (fs' : list (str * node F)), fget F k fs = Some (NSub d' vs' fs')).
+Proof. exact set_obj_ok. Qed.
+Print Assumptions C12_set_obj_ok.
+
+Theorem C12_obj_marks :
+  forall (F : Type) (lvalidate lto_python : F -> pyval -> res pyval) (ldefault : F -> N -> pyval) (lcallable lflag : F -> bool) (vrun : N -> list (str * pyval) -> bool) (o : cop) (w : world) (pre : str) (c : cfg) (vs : list N) (fs : list (str * node F)) (w' : world) (c' : cfg) (r : oc), is_obj_op o = true -> declared_target F fs o = true -> apply_cop F lvalidate lto_python ldefault lcallable lflag vrun w pre c false vs fs o = (w', c', r) -> forall k : str, defined c' k = match o with | CSetObj k' _ => match r with | OOk => defined c k || str_eqb k k' | _ => defined c k end | _ => defined c k end.
+Proof. exact obj_marks. Qed.
+Print Assumptions C12_obj_marks.
+
+(* lists of configurations with declared default items (ListField(schema, default=[maps]) constant or callable): every slot of a fresh configuration holds what build_val makes of the declaration (fresh_slot, as reset_spec says for a reset key); for such a list that is one freshly built item per declared map, the key marked default (fresh_list_default, reset_list_default; build_items_spec says what each item is) *)
+
+Theorem C12_fresh_slot :
+  forall (F : Type) (lvalidate lto_python : F -> pyval -> res pyval) (ldefault : F -> N -> pyval) (lcallable lflag : F -> bool) (vrun : N -> list (str * pyval) -> bool) (w : world) (fs : list (str * node F)) (w' : world) (c : cfg) (k : str) (nd : node F), build_cfg F lvalidate lto_python ldefault lcallable lflag vrun w fs = (w', c) -> fget F k fs = Some nd -> exists w0 : world, dget k (c_data c) = Some (snd (build_val F lvalidate lto_python ldefault lcallable lflag vrun w0 nd)).
+Proof. exact fresh_slot. Qed.
+Print Assumptions C12_fresh_slot.
+
+Theorem C12_build_items_spec :
+  forall (F : Type) (lvalidate lto_python : F -> pyval -> res pyval) (ldefault : F -> N -> pyval) (lcallable lflag : F -> bool) (vrun : N -> list (str * pyval) -> bool) (vs : list N) (fs' : list (str * node F)) (ts : list pyval) (w : world) (acc : list cfg) (w' : world) (l : list cfg), build_items F lvalidate lto_python ldefault lcallable lflag vrun vs fs' ts w acc = (w', Some l) -> exists l1 : list cfg, l = rev acc ++ l1 /\ Datatypes.length l1 = Datatypes.length ts /\ Forall (fun it : cfg => validate_errs F lvalidate lflag vrun (NSub false vs fs') [] (VCfg it) = []) l1 /\ Forall2 (fun (m : pyval) (it : cfg) => exists (t : N) (d : list (pyval * pyval)) (w0 : world) (dd : list (str * val)), m = PDict t d /\ snd (build_fields F lvalidate lto_python ldefault lcallable lflag vrun {| w_next := w_next w0 + 1; w_calls := w_calls w0 |} fs') = dd /\ flat_load F lvalidate lto_python d (Cfg (w_next w0) dd (map fst fs') []) fs' = (it, OOk)) ts l1.
+Proof. exact build_items_spec. Qed.
+Print Assumptions C12_build_items_spec.
+
+Theorem C12_fresh_list_default :
+  forall (F : Type) (lvalidate lto_python : F -> pyval -> res pyval) (ldefault : F -> N -> pyval) (lcallable lflag : F -> bool) (vrun : N -> list (str * pyval) -> bool) (w : world) (fs : list (str * node F)) (w' : world) (c : cfg) (k : str) (r : bool) (vs : list N) (fs' : list (str * node F)) (callable : bool) (maps : list pyval), build_cfg F lvalidate lto_python ldefault lcallable lflag vrun w fs = (w', c) -> fget F k fs = Some (NCfgList r vs fs' (Some (callable, maps))) -> defined c k = false /\ (exists w0 : world, let (_, o) := build_items F lvalidate lto_python ldefault lcallable lflag vrun vs fs' maps (bump_calls callable w0) [] in match o with | Some l => dget k (c_data c) = Some (VList l) /\ Datatypes.length l = Datatypes.length maps | None => dget k (c_data c) = Some (VLeaf default_failed) end).
+Proof. exact fresh_list_default. Qed.
+Print Assumptions C12_fresh_list_default.
+
+Theorem C12_reset_list_default :
+  forall (F : Type) (lvalidate lto_python : F -> pyval -> res pyval) (ldefault : F -> N -> pyval) (lcallable lflag : F -> bool) (vrun : N -> list (str * pyval) -> bool) (w : world) (c : cfg) (fs : list (str * node F)) (k : str) (w' : world) (c' : cfg) (r : bool) (vs : list N) (fs' : list (str * node F)) (callable : bool) (maps : list pyval), fget F k fs = Some (NCfgList r vs fs' (Some (callable, maps))) -> reset_key F lvalidate lto_python ldefault lcallable lflag vrun w c fs k = (w', c', OOk) -> defined c' k = false /\ (forall k' : str, str_eqb k' k = false -> defined c' k' = defined c k' /\ dget k' (c_data c') = dget k' (c_data c)) /\ (let (_, o) := build_items F lvalidate lto_python ldefault lcallable lflag vrun vs fs' maps (bump_calls callable w) [] in match o with | Some l => dget k (c_data c') = Some (VList l) /\ Datatypes.length l = Datatypes.length maps | None => dget k (c_data c') = Some (VLeaf default_failed) end).
+Proof. exact reset_list_default. Qed.
+Print Assumptions C12_reset_list_default.
